@@ -36,9 +36,12 @@ from .trait_handler import TraitHandler
 CallableTypes = (FunctionType, MethodType)
 
 # Mapping of coercable types.
+# Mapping of coercable types. In the fast validation tuple, the types listed
+# after the ``None`` marker are the ones whose values are coerced (types listed
+# before it would be accepted unchanged).
 CoercableTypes = {
-    float: (ValidateTrait.coerce, float, int),
-    complex: (ValidateTrait.coerce, complex, float, int),
+    float: (ValidateTrait.coerce, float, None, int),
+    complex: (ValidateTrait.coerce, complex, None, float, int),
 }
 
 _WARNING_FORMAT_STR = ("'{handler}' trait handler has been deprecated. "
@@ -126,15 +129,14 @@ class TraitCoerceType(TraitHandler):
 
     def validate(self, object, name, value):
         fv = self.fast_validate
-        tv = type(value)
 
-        # If the value is already the desired type, then return it:
-        if tv is fv[1]:
+        # If the value is already of the desired type, then return it:
+        if isinstance(value, fv[1]):
             return value
 
-        # Else see if it is one of the coercable types:
+        # Else see if it is of one of the coercable types:
         for typei in fv[2:]:
-            if tv is typei:
+            if typei is not None and isinstance(value, typei):
                 # Return the coerced value:
                 return fv[1](value)
 
